@@ -10,7 +10,7 @@
    Python ints are Z on the translated side, N in the model: [zsub], [zsp], [zds] embed subspaces, spaces and draws.
    Only statements here; proofs are in Proofs/IdSpaceTrEq.v. *)
 From Coq Require Import ZArith NArith List Bool.
-From Tup Require Import Lib.IdSpaceTy Lib.PySem Gen.IdSpaceTr Model.IdSpace Proofs.IdSpaceTrEq.
+From Tup Require Import Lib.IdSpaceTy Lib.PySem Gen.IdSpaceTr Model.IdSpace Proofs.IdSpaceTrEq Proofs.IdSpaceTrSplit Proofs.IdSpaceTrAllIds.
 Import ListNotations.
 Open Scope Z_scope.
 
@@ -85,6 +85,20 @@ Theorem C10tr_subspace_size : forall sp s ds, valid_subspace s = true ->
 Proof. exact tr_subspace_size_eq. Qed.
 Print Assumptions C10tr_subspace_size.
 
+(* ---- split: the loop `for begin in range(self.begin + remainder, self.end, size): subspaces.append(IDSubspace(begin,
+   begin + size))`, the replacement of the first part, every ValueError path (count <= 0, too small, range() step 0,
+   an invalid part) and the IndexError path — for ARBITRARY count *)
+Theorem C10tr_split : forall s (k : Z) ds, valid_subspace s = true ->
+  tr_IDSubspace_split (zsub s) k ds = res_of_split (split s k) ds.
+Proof. exact tr_split_eq. Qed.
+Print Assumptions C10tr_split.
+(* ---- all_ids: the three `lambda:` value generators (one of them a generator expression over two ranges), the three
+   nested loops and the composed id: the same ids IN THE SAME ORDER as the model's enumeration *)
+Theorem C10tr_all_ids : forall sp s ds, valid_subspace s = true ->
+  tr_IDSpace_all_ids (zsp sp) (zsub s) ds = Ok (zl (all_ids sp s)) ds.
+Proof. exact tr_all_ids_eq. Qed.
+Print Assumptions C10tr_all_ids.
+
 (* ---- randomness: for every list of draws the translated generator and the model consume the same draws, stop for
    the same reason and produce the same id *)
 Theorem C10tr_rand_byte : forall s asked ds, valid_subspace s = true ->
@@ -106,5 +120,7 @@ Example C10tr_nonvacuous :
   tr_IDSpace_gen_random_id (8, true) (3, 5) [1; 41; 7] = Ok 67108906 [7] /\
   tr_IDSpace_from_id 67108906 [] = Ok (8, true) [] /\
   tr_IDSpace_gen_random_id (8, true) (3, 5) [2] = PySem.BadDraw /\
-  tr_IDSpace_from_id 0 [] = Exc /\ tr_IDSubspace_new 0 1 [] = Exc.
+  tr_IDSpace_from_id 0 [] = Exc /\ tr_IDSubspace_new 0 1 [] = Exc /\
+  tr_IDSubspace_split (0, 8) 3 [] = Ok [(0, 4); (4, 6); (6, 8)] [] /\ tr_IDSubspace_split (1, 3) 5 [] = Exc /\
+  tr_IDSpace_all_ids (8, false) (254, 256) [] = Ok [254; 255] [].
 Proof. vm_compute. repeat split. Qed.
